@@ -67,6 +67,10 @@ pub struct FillSpec {
 pub struct PositionCase {
     pub magnitude: Magnitude,
     pub fills: Vec<FillSpec>,
+    /// > 0: the history starts with this many fills on the first fill's side (an inventory built up
+    /// by many partial fills before anything reduces it; up to 250)
+    #[serde(default)]
+    pub build_up: u8,
 }
 
 #[derive(Debug, Clone)]
@@ -118,7 +122,10 @@ pub fn resolve(case: &PositionCase) -> Vec<Fill> {
     let mut net = Decimal::ZERO;
     let mut t = T0_MS;
     let mut out = Vec::new();
-    for (i, f) in case.fills.iter().enumerate() {
+    let side = case.fills.first().map(|f| f.buy).unwrap_or(true);
+    let prefix = (0..case.build_up as u32).map(|k| FillSpec { buy: side, price_m: 5000 + 37 * (k % 50), price_s: 2, qty: QtySel::Pool((k % 6) as u8), fee_rate: (k % 3) as u16 * 10, dt: (k % 7) as u16, stale_ms: 0 });
+    let specs: Vec<FillSpec> = prefix.chain(case.fills.iter().copied()).collect();
+    for (i, f) in specs.iter().enumerate() {
         let price = price_of(case.magnitude, f);
         let qty = qty_of(case.magnitude, f.qty, net.abs());
         let fee = (price * qty * Decimal::new(f.fee_rate as i64, 5)).round_dp(10);
@@ -375,6 +382,7 @@ impl Check for PositionLedger {
                 f.qty = QtySel::Fresh(1 + m % 9_999, s % 4);
             }
         }
+        case.build_up = if case.build_up & 7 == 7 { 100 + case.build_up / 2 } else { 0 };
         if case.fills.is_empty() {
             case.fills.push(FillSpec { buy: true, price_m: 100, price_s: 0, qty: QtySel::Pool(0), fee_rate: 0, dt: 0, stale_ms: 0 });
         }
@@ -390,8 +398,9 @@ impl Check for PositionLedger {
         (
             prop_oneof![1 => Just(Magnitude::Tiny), 3 => Just(Magnitude::Mid), 1 => Just(Magnitude::Huge)],
             prop::collection::vec(fill_spec(), 1..max),
+            prop_oneof![24 => Just(0u8), 1 => 100u8..=250],
         )
-            .prop_map(|(magnitude, fills)| PositionCase { magnitude, fills })
+            .prop_map(|(magnitude, fills, build_up)| PositionCase { magnitude, fills, build_up })
             .boxed()
     }
 
@@ -495,6 +504,7 @@ impl Check for PositionLedger {
             Magnitude::Huge => "magnitude_huge",
         });
         rep.class_if(shape.increase_after_reduction, "increase_after_reduction");
+        rep.class_if(case.build_up > 128, "position_built_by_more_than_128_fills");
         rep.class_if(shape.flips > 0, "flip");
         rep.class_if(shape.flips > 1, "repeated_flips");
         rep.class_if(shape.exact_closes > 0, "exact_close");
